@@ -2,7 +2,7 @@
    (or a one-line instantiation) and followed by Print Assumptions.  One file per property, importing only
    what that property's statements need, so that a change which breaks one property's proof leaves the
    others' theorems checkable. *)
-From NTRIP Require Import Base Bits Time Classify Frame FrameSpec FrameProofs TimeSpec History TimeProofs.
+From NTRIP Require Import Base Bits Time Classify Frame FrameSpec FrameProofs TimeSpec History TimeProofs SegProofs StreamTime.
 From NTRIPGen Require Import GenConsts.
 
 (* ===================== C17 and C06 ===================== *)
@@ -30,6 +30,16 @@ Proof.
   intros T evs H. apply C17_any_start. apply admissible_weaken. exact H.
 Qed.
 Print Assumptions C06_true_time.
+
+(* The same through the stream handler (HandleMessages): the concatenation of the frames of an
+   admissible history is cut into exactly those frames and every delivered message carries the
+   true UTC time and start of week. *)
+Theorem C17_stream : forall T evs, admissibleb false T evs = true ->
+  exists ms h', handle_stream (new_handler T) (concat (map event_frame evs)) = Ok (ms, h') /\
+                Forall2 (fun e m => report_ok e (msent m, msow m) = true) evs ms /\
+                map raw ms = map event_frame evs.
+Proof. exact (stream_true_times false). Qed.
+Print Assumptions C17_stream.
 
 (* Non-vacuity: a four-constellation history across rollovers, started late in the week
    (Wed 2023-05-10 12:00 UTC), first GPS observation 23 ms into the week, an illegal timestamp
